@@ -314,10 +314,12 @@ impl Node {
                 // Clone first, lock after: a waker clone is a scheduling point and
                 // a std mutex must never be held across one.
                 let w = poll_fn(|tcx| Poll::Ready(tcx.waker().clone())).await;
-                if ctx.pool_closed.load(Ordering::SeqCst) {
-                    drop(w);
-                } else {
+                // At most 16 leaked wakers at a time (each `ChaosWake` walks the whole pool).
+                let keep = !ctx.pool_closed.load(Ordering::SeqCst) && ctx.wakers.lock().unwrap().len() < 16;
+                if keep {
                     ctx.wakers.lock().unwrap().push(w);
+                } else {
+                    drop(w);
                 }
             }
             Op::ChaosWake { how } => {
